@@ -4,8 +4,10 @@ package store
 import (
 	"bytes"
 	"crypto/sha256"
+	"encoding/base64"
 	"fmt"
 	"os"
+	"path/filepath"
 	"strings"
 	"testing"
 	"time"
@@ -264,8 +266,65 @@ func TestVerifDriver(t *testing.T) {
 		}
 	case "C02":
 		runC02(em, r)
+	case "C16":
+		nd, nh := 800, 150
+		if vThorough() {
+			nd, nh = 20000, 3000
+		}
+		for i := 0; i < nd; i++ {
+			runC16Dir(em, r, i)
+		}
+		for i := 0; i < nh; i++ {
+			runC16Hist(em, r, i)
+		}
+	case "C14":
+		n := 250
+		if vThorough() {
+			n = 4000
+		}
+		for i := 0; i < n; i++ {
+			runRandomHist(em, r, i, vHistOpts{prop: "C14", plant: i%2 == 0, manySets: true, emitExtra: c14Extra})
+		}
 	default:
 		t.Fatalf("unknown property %s", prop)
 	}
 	em.emit(vCase{Prop: prop, Kind: "stats", Class: "stats", Human: vStats})
+}
+
+var c14Salts = map[string]bool{}
+
+// C14 driver-side clauses: salts never repeat across all writes of the run;
+// neither a password nor the HMAC key (raw or base64) appears in the store.
+func c14Extra(h *vHist, c *vCase) {
+	for _, s := range h.salts {
+		k := string(s)
+		if c14Salts[k] {
+			c.Violation = "a salt was used for two different writes: " + vHex(s)
+		}
+		c14Salts[k] = true
+	}
+	var blob []byte
+	filepath.Walk(h.base, func(p string, info os.FileInfo, err error) error {
+		if err == nil && !info.IsDir() {
+			b, _ := os.ReadFile(p)
+			blob = append(blob, b...)
+			blob = append(blob, 0)
+		}
+		return nil
+	})
+	for _, p := range h.params {
+		if !p.Scrypt {
+			continue
+		}
+		for _, needle := range [][]byte{p.Key, []byte(base64.StdEncoding.EncodeToString(p.Key)), []byte(base64.URLEncoding.EncodeToString(p.Key))} {
+			if bytes.Contains(blob, needle) {
+				c.Violation = "the HMAC key of parameter set " + fmt.Sprint(p.ID) + " appears in the store directory"
+			}
+		}
+	}
+	for _, pw := range h.pwsWritten {
+		if len(pw) >= 6 && bytes.Contains(blob, pw) {
+			c.Violation = "a password appears in clear in the store directory: " + vHex(pw)
+		}
+	}
 }
